@@ -253,6 +253,36 @@ def _comp(gens, i, elt, c):
                 c.scope[var] = old
 
 
+def _ro_matching(a, b):
+    """Number of matching characters in the Ratcliff/Obershelp sense: the longest common block (earliest in a, then earliest in b),
+    then the same to its left and to its right.  Written out here; no difflib."""
+    best = (0, 0, 0)
+    for i in range(len(a)):
+        for j in range(len(b)):
+            k = 0
+            while i + k < len(a) and j + k < len(b) and a[i + k] == b[j + k]:
+                k += 1
+            if k > best[2]:
+                best = (i, j, k)
+    i, j, k = best
+    if k == 0:
+        return 0
+    return k + _ro_matching(a[:i], b[:j]) + _ro_matching(a[i + k:], b[j + k:])
+
+
+def similarity(a, b):
+    return 1.0 if not a and not b else 2.0 * _ro_matching(a, b) / (len(a) + len(b))
+
+
+def fuzzy(text, pattern, threshold=0.80):
+    """Documented meaning of fuzzy(): some stretch of the text as long as the pattern (the whole text when it is shorter) is at
+    least `threshold` similar to the pattern, letter case ignored."""
+    t, p = text.upper(), pattern.upper()
+    if len(p) > len(t):
+        return similarity(t, p) >= threshold
+    return any(similarity(t[i:i + len(p)], p) >= threshold for i in range(len(t) - len(p) + 1))
+
+
 def _text_pat(args, c, fname):
     if len(args) == 1:
         return c.description, args[0]
@@ -338,6 +368,14 @@ def _call(n, c):
         if f == 'anyof':
             d = c.description.upper()
             return any(p.upper() in d for p in args)
+        if f == 'fuzzy':
+            if len(args) == 1:
+                return fuzzy(c.description, args[0])
+            if len(args) == 2:
+                return fuzzy(c.description, args[0], args[1]) if isinstance(args[1], (int, float)) else fuzzy(args[0], args[1])
+            if len(args) == 3:
+                return fuzzy(args[0], args[1], args[2])
+            raise RefError('fuzzy arity')
         if f == 'normalized':
             t, p = _text_pat(args, c, f)
             return _norm(p) in _norm(t)
